@@ -304,15 +304,30 @@ def check_property(prop, tier="quick", seed=0, jobs=None, write_baseline=False, 
                 else:
                     native["failures"].append(item)
     _worker_init()  # install the facade once; symbolic workers are forked from this state
-    with ProcessPoolExecutor(max_workers=jobs, mp_context=fork) as ex:
-        futs = {ex.submit(run_task, t): t for t in tasks}
-        for f in as_completed(futs):
+    deadline = float(os.environ.get("VERIF_DEADLINE", "1200" if tier == "quick" else "10800"))
+    ex = ProcessPoolExecutor(max_workers=jobs, mp_context=fork)
+    futs = {ex.submit(run_task, t): t for t in tasks}
+    import concurrent.futures as cf
+
+    try:
+        for f in as_completed(futs, timeout=max(30.0, deadline - (time.time() - t0))):
             try:
                 results.append(f.result())
             except Exception as e:  # worker died
                 t = futs[f]
                 results.append({"property": prop, "contract": t[1], "cfg": t[2], "status": "checker-failure",
                                 "reason": f"worker died: {e}", "wall_s": 0})
+    except cf.TimeoutError:
+        for f, t in futs.items():
+            if not f.done():
+                results.append({"property": prop, "contract": t[1], "cfg": t[2], "status": "undecided",
+                                "reason": f"overall deadline of {deadline:.0f} s reached before this configuration finished", "wall_s": 0})
+        for p_ in list(getattr(ex, "_processes", {}).values()):
+            try:
+                p_.terminate()
+            except Exception:
+                pass
+    ex.shutdown(wait=False, cancel_futures=True)
     results.sort(key=lambda r: (r["contract"], cfg_id(r["cfg"])))
 
     baseline = _load_baseline(prop)
